@@ -56,6 +56,14 @@ class Builder:
 
     def nm(self, prefix, scope=None):
         nm = self._nm(prefix, scope)
+        if nm is not None and prefix in ("p", "n", "u") and self.c.get("empty_name_rate") \
+                and self.r.random() < self.c["empty_name_rate"]:
+            # the empty string is a name like any other (stored, unique in its scope, found by lookups): one port,
+            # cable or instance per scope may carry it
+            used = self.__dict__.setdefault("empty_issued", set())
+            if (scope, prefix) not in used:
+                used.add((scope, prefix))
+                return ""
         if self.c.get("case_twin_rate") and nm is not None:
             # siblings whose names differ only in letter case ("u1" and "U1"): distinct under the default policy
             issued = self.__dict__.setdefault("case_issued", {}).setdefault(
@@ -324,6 +332,9 @@ class Builder:
                     for pk in range(r.randint(1, 3)):
                         val = r.choice(["8'h0F", "hello world", 3, 0, 1, -7, True, False, "a.b/c", "", "50% duty"])
                         pr = {"identifier": "P%d" % pk, "value": val}
+                        if c.get("odd_prop_ident") and r.random() < c["odd_prop_ident"]:
+                            # a property named through the API with something that is no EDIF identifier
+                            pr["identifier"] = r.choice(["LOC.X", "my prop", "1ST", "a[%d]" % pk, "x-y"]) + str(pk)
                         if r.random() < 0.3:
                             pr["original_identifier"] = "p[%d]" % pk
                         plist.append(pr)
@@ -374,12 +385,23 @@ class Builder:
                 if ref in free:
                     free.remove(ref)
                     self.emit({"op": "connect_pin", "on": w, "pin": ref})
+        joined = {}
         for ref in free:
             if r.random() < c["connect_rate"]:
                 w = r.choice(wires)
+                joined.setdefault(w, []).append(ref)
                 if c.get("proxy_rate") and ref["k"] == "stored" and r.random() < c["proxy_rate"]:
                     ref = dict(ref, k="proxy")
                 self.emit({"op": "connect_pin", "on": w, "pin": ref})
+        if c.get("wire_reorder_rate"):
+            # the endpoints of a net are put in another order through the reorder assignment of Wire.pins, the
+            # instance pins named by stand-in (instance, inner pin) objects as a caller without the stored pin does
+            for w, refs in joined.items():
+                if len(refs) >= 2 and r.random() < c["wire_reorder_rate"]:
+                    refs = list(refs)
+                    r.shuffle(refs)
+                    self.emit({"op": "set_wire_pins", "on": w, "pins": [
+                        dict(q, k="proxy") if q["k"] == "stored" and r.random() < 0.7 else q for q in refs]})
 
 
 class ScriptGen:
